@@ -26,6 +26,34 @@ CHECKS = {
         note="Trusted: ast.parse; a line break is LF or CR; below 3.12 the unparser's SyntaxError for a backslash inside an f-string is the documented refusal.",
         ref="DESIGN.md 3 C04",
     ),
+    "C01": dict(
+        category="exploration",
+        technique="bounded-exhaustive enumeration of program derivations (statement grammar over feature atoms and compound frames, <= 3/4 nodes) x 8 option combinations, differential execution against CPython",
+        text="Every derivation of a statement grammar (27 simple feature atoms, 3 interrupts, 13 compound frames with block holes) with at most 3 (quick) / 4 (thorough) statement nodes is converted under all 8 option combinations and evaluated; stdout and the canonical user globals must equal those of exec(source), and only __ol_*/itertools/importlib names may be added. The space is enumerated completely.",
+        note="Trusted: CPython as reference semantics; the canonical observation (functions/classes by structure, no metadata, no annotations).",
+        ref="DESIGN.md 3 C01",
+    ),
+    "C06": dict(
+        category="exploration",
+        technique="bounded-exhaustive enumeration of scope trees (<= 3/4 scopes of kinds module/def/class/lambda/listcomp/genexpr x one role per scope from a complete role catalogue) x 8 option combinations, differential execution against CPython",
+        text="Every scope tree with at most 3 (quick) / 4 (thorough) scopes and every assignment of binding roles (read, assign, augmented, walrus, parameter kinds, for/comprehension target, global/nonlocal forms, def/class/import binding, read-then-assign) to the tracked name is rendered to a program that logs the name before and after each inner scope runs; the log and final globals of every conversion must equal CPython's. Complete within the bound.",
+        note="Trusted: CPython for name resolution; candidates CPython rejects or that raise are outside the fragment (counted).",
+        ref="DESIGN.md 3 C06",
+    ),
+    "C10": dict(
+        category="model_checking",
+        technique="explicit-state breadth-first exploration of API action histories on the real objects (state = reference-model option values x structural hash of the implementation's hidden module/class state), plus exhaustive no-deduplication histories to depth 3/4; every conversion compared with a fresh-process reference",
+        text="All histories of {new options object, set option (legal/illegal), convert program p with object o / with no options, under RNG keep/reseed/forced-collision} up to depth 5 (quick) / 6 (thorough) are explored breadth-first with state deduplication over (believed option values, hidden implementation state), each replayed on fresh real objects in a forked pristine process; additionally every history up to length 3/4 over the core alphabet is run without deduplication. Every conversion must equal the same call made in a fresh process (references agree under PYTHONHASHSEED 0..3) up to __ol_ renaming.",
+        note="Trusted: fork of a pristine process = fresh; hidden-state hash covers module/class-level mutables, descriptors, lru caches, closure cells of oneliner.*; random ids abstracted.",
+        ref="DESIGN.md 3 C10, 5b E3",
+    ),
+    "C16": dict(
+        category="model_checking",
+        technique="exhaustive enumeration of CLI argument histories (length <= 2/3 over a 29-element alphabet x output modes x input files), each a real `python -m oneliner` process, against an option-state reference model and fresh-process API results",
+        text="Every sequence of up to 2 (quick) / 3 (thorough) option arguments (legal -C, illegal values, unknown/attribute names, malformed forms, --unparser) x {stdout, -o new file, -o existing file} x input files is run as a real process; legal histories must exit 0 and write exactly the API result for the model's option state; any illegal element must give a non-zero exit with no file created or modified.",
+        note="Trusted: the 10-line reference model of option parsing; PYTHONIOENCODING=utf-8 for printed output.",
+        ref="DESIGN.md 3 C16",
+    ),
 }
 
 def main():
